@@ -1,0 +1,12 @@
+//go:build verif
+
+package gonnx
+
+import "github.com/advancedclimatesystems/gonnx/onnx"
+
+// VerifParameters exposes the weight tensors of the model to the verification harness
+// (read-only use: snapshots and write-protection). Only compiled with -tags verif.
+func (m *Model) VerifParameters() Tensors { return m.parameters }
+
+// VerifModelProto exposes the underlying model proto to the verification harness.
+func (m *Model) VerifModelProto() *onnx.ModelProto { return m.mp }
